@@ -183,7 +183,7 @@ def run(ctx):
             elif e[0] == 'send_error':
                 events.append(('e', e[2], e[1].log_id))
         wire_sm = [p for p in obs['wire'] if struct.unpack('>I', p[4:8])[0] == 4]
-        rp = {'messages': [repr(m)[:700] for m in msgs], 'default': default}
+        rp = {'messages': [repr(m)[:700] for m in msgs], 'default': default, 'queue_pickle': core.pickle_b64(msgs_copy)}
         failed = sum(1 for e in events if e[0] == 'e')
         ctx.case(('queue', tuple(terms), default), nontrivial=failed > 0)
         ctx.count('queue_len_%d' % len(msgs))
@@ -273,5 +273,17 @@ def run(ctx):
 
 def replay(ctx, path):
     import json
-    print('replay:', json.dumps(json.load(open(path)))[:2000])
+    from aiosmpplib.protocol import SubmitSm
+    rp = json.load(open(path))
+    if rp.get('queue_pickle'):
+        msgs = core.unpickle_b64(rp['queue_pickle'])
+        obs = run_session(msgs, rp.get('default', 'gsm0338'), fail_at=rp.get('transport_failure_at_submit_sm_write'))
+        print('replay: start() done:', obs['start_done'], repr(obs['start_exc']), '| sender raised:', obs['sender_raised'][:1], '| connections:', obs['conns'])
+        for e in obs['log']:
+            if e[0] == 'sending' and isinstance(e[1], SubmitSm):
+                print('   sending   ', e[1].log_id, len(e[2]), 'octets')
+            elif e[0] == 'send_error':
+                print('   send_error', e[1].log_id, repr(e[2])[:100])
+        return 1 if obs['start_done'] or obs['sender_raised'] else 0
+    print('replay:', json.dumps(rp)[:2000])
     return 0
